@@ -26,7 +26,8 @@ def gen(rng):
     for y in ys:
         rels = y.setdefault('relations', [])
         for _ in range(rng.randint(0, 4)):
-            rels.append({'target': rng.choice(ids), 'relType': rng.choice(['hypernym', 'hypernym', 'instance_hypernym', 'similar', 'also', 'weird_rel']),
+            rels.append({'target': rng.choice(ids), 'relType': rng.choice(['hypernym', 'hypernym', 'instance_hypernym', 'similar', 'also', 'weird_rel'] +
+                                                                           ([x for v_ in store.SHORTCUTS.values() for x in v_] if rng.random() < 0.5 else [])),
                          'meta': rng.choice([None, None, {'type': 'sub1'}, {'type': 'sub2'}, {'note': 'n', 'type': 'sub1'}, {'type': 'sub1', 'note': 'n'}])})
         if rels and rng.random() < 0.3:
             rels.append(dict(rels[rng.randrange(len(rels))]))
@@ -72,6 +73,11 @@ def judge(ctx, sc, im):
         args = {a: v for a, v in op.items() if a != 'k'}
         inst = multi.installed_after(sc, im, k)
         b = store.canon_battery(im[k])
+        for x in im[k]['scope'].get('synsets_x', []):
+            if x.get('_shortcuts_bad'):
+                ctx.fail('hypernyms/hyponyms/holonyms/meronyms()=get_related(the-documented-relation-names)', sc,
+                         {'args': args, 'synset': x['ref'], '[method, method result, get_related result]': x['_shortcuts_bad'][:3]})
+                break
         default_mode = not args.get('lexicon') and not args.get('lang')
         scope_specs = [s for s, _ in inst] if default_mode else b['S']
         d = dict(inst)
